@@ -137,6 +137,8 @@ STATEFUL = {
                  lambda now, d: ",".join(str(i) for i in range(len(d["products"]))) + "|" + ("0" if d["products"] else "")),
     "wsctl": ("a  {%- if true -%}  b  {%- endif -%}  c {{- 'd' -}}  e {%~ assign x = 1 ~%}\n f {{~ s | size ~}} \n g{% if false -%} h {%- endif %}  i",
               lambda now, d: None),
+    "decimalfmt": ("{{ 1234.5 | decimal }}|{{ 98765.4321 | decimal: group_separator: false }}|{{ 0.5 | decimal }}|{{ 1234.5 | money }}",
+                   lambda now, d: None),
     # first-render races (lazily built per-template / per-node state) and filter instances shared
     # by every render of an environment: programs whose result differs with the data
     "static": ("Just text,\n  nothing to evaluate: {not} { % even % } this.\n",
@@ -570,7 +572,7 @@ class World:
         return d
 
     def data(self, spec: dict, fault: dict | None, tag: str):
-        key = json.dumps({k: v for k, v in spec.items() if k != "reuse"}, sort_keys=True)
+        key = json.dumps({k: v for k, v in spec.items() if k not in ("reuse", "call")}, sort_keys=True)
         if (tag == "shared" and spec.get("reuse") and not fault and self.last_data is not None
                 and self.last_data[2] == key):
             # the caller passes the very same objects again: a render that changed them in
@@ -632,9 +634,15 @@ class World:
 
                 ctl.reenter_at = fault["k"]
                 ctl.reenter = nested
+            conv = step["data"].get("call")
+            args, kws = ((), d)
+            if conv == "pos":          # the caller's mapping passed positionally (never to be written to)
+                args, kws = ((d,), {})
+            elif conv == "poskw":      # ... plus keyword arguments that must not end up in it
+                args, kws = ((d,), {"extra": "KW", "gv": "KWG"})
             if step.get("mode", "s") == "s":
                 try:
-                    return ("ok", common.norm(t.render(**d))), ctl
+                    return ("ok", common.norm(t.render(*args, **kws))), ctl
                 except Inconclusive:
                     raise
                 except BaseException as exc:  # noqa: BLE001
@@ -644,7 +652,7 @@ class World:
             cancel_at = fault["j"] if fault and fault["kind"] == "cancel_j" else None
 
             async def co():
-                return await t.render_async(**d)
+                return await t.render_async(*args, **kws)
 
             return self.run_async(co(), solo_sid or f"s{step['id']}", cancel_at), ctl
         finally:
@@ -706,6 +714,7 @@ class World:
         # oracle 2: closed form
         prog = h.get("prog")
         if (prog in STATEFUL and step["op"] == "render" and not fault
+                and step["data"].get("call") != "poskw"    # (keyword arguments are extra inputs)
                 and self.plain_env(ei, allow_auto_escape=(prog == "escprobe")) and not h.get("globals")):
             rd = self.raw_data(step["data"])
             rd["_auto_escape"] = bool((self.plan["envs"][ei].get("env") or {}).get("auto_escape"))
@@ -1408,6 +1417,14 @@ def gen_plan(seed: int, tier: str) -> dict:
                 prog = "gvprobe"
             steps.append({"op": "oneshot", "id": nid(), "src": STATEFUL[prog][0], "prog": prog,
                           "mode": rng.choice("sa"), "data": data_spec()})
+    # calling conventions (own random stream): a positional mapping, alone or with keyword arguments;
+    # a follow-up render that reuses the caller's objects then passes the very same mapping again
+    rng5 = random.Random(f"c09c:{seed}")
+    for st in steps:
+        if st["op"] == "render" and not st.get("fault") and rng5.random() < 0.2:
+            st["data"] = {**st["data"], "call": rng5.choice(["pos", "poskw", "poskw"])}
+        elif st["op"] == "render" and st["data"].get("reuse") and rng5.random() < 0.5:
+            st["data"] = {**st["data"], "call": "pos"}
     # caller threads (own random stream: earlier plans keep their shape)
     rng4 = random.Random(f"c09t:{seed}")
     if rng4.random() < 0.3:
@@ -1423,7 +1440,7 @@ def gen_plan(seed: int, tier: str) -> dict:
                     first_render = False
                 elif rng4.random() < 0.4:
                     # ... or on a small program parsed for the occasion
-                    pr = rng4.choice(["static", "casestr", "jsonindent", "striphtml", "lamtwice", "counters"])
+                    pr = rng4.choice(["static", "casestr", "jsonindent", "striphtml", "lamtwice", "counters", "moneytie", "time", "decimalfmt"])
                     src_step = {"op": "parse", "env": ei, "src": STATEFUL[pr][0], "prog": pr, "_new": True}
             if first_render:
                 h2 = len(handles)
@@ -1449,7 +1466,8 @@ def gen_plan(seed: int, tier: str) -> dict:
         cand_envs = [i for i, e in enumerate(envs) if not e.get("default_global")]
         if cand_envs:
             ei = rng4.choice(cand_envs)
-            pr = rng4.choice(["static", "casestr", "jsonindent", "striphtml", "lamtwice", "counters", "wsctl", "wsctl"])
+            pr = rng4.choice(["static", "casestr", "jsonindent", "striphtml", "lamtwice", "counters", "wsctl", "wsctl",
+                              "moneytie", "decimalfmt", "decimalfmt", "time"])
             own_parse = rng4.random() < 0.45
             at = rng4.randrange(1, len(steps) + 1)
             block = []
